@@ -302,6 +302,9 @@ func (r *e2run) apply(op E2Op) {
 	case "deletePod":
 		ns, name := splitKey(op.A)
 		_ = w.UserDelete(sim.ResPods, ns, name)
+	case "orphanPod": // A=pod key: its owner references are stripped (what the garbage collector does under orphan propagation)
+		_ = w.UserUpdate(sim.ResPods, op.A, func(o runtime.Object) { o.(*corev1.Pod).OwnerReferences = nil })
+		r.label("pod-owner-reference-stripped")
 	case "deleteJC":
 		ns, name := splitKey(op.A)
 		_ = w.UserDelete(sim.ResJobConfigs, ns, name)
@@ -354,7 +357,13 @@ func (r *e2run) apply(op E2Op) {
 		case "oom":
 			w.KubeletFinish(op.A, sim.OutOOM)
 		case "flap":
-			w.KubeletFlap(op.A)
+			if w.KubeletFlap(op.A) {
+				r.label("running-pod-lost-container-status")
+			}
+		case "flap-pending":
+			if w.KubeletFlapPending(op.A) {
+				r.label("running-pod-reported-pending")
+			}
 		case "unflap":
 			w.KubeletUnflap(op.A)
 		case "terminate":
@@ -529,6 +538,9 @@ type e2Profile struct {
 	// restartHeavy: every Pod has restartPolicy OnFailure, so containers are often
 	// restarted in place (also after an OOM kill) before they exit for good.
 	restartHeavy bool
+	// enqueueHeavy: every JobConfig uses Enqueue with a small limit and Jobs do not
+	// override the policy: long queues whose head is often deleted (C06 queue).
+	enqueueHeavy bool
 }
 
 func genE2Setup(t *rapid.T, p e2Profile) *E2Trace {
@@ -593,6 +605,11 @@ func genE2Setup(t *rapid.T, p e2Profile) *E2Trace {
 		if p.forceHeavy {
 			j.ForbidForce = rapid.IntRange(0, 2).Draw(t, "fhForbid") == 0
 			j.PendingTimeout = nil
+		}
+		if p.enqueueHeavy {
+			j.Policy = "Enqueue"
+			j.MaxConc = optInt64(t, "ehMaxConc", 1, 1, 2)
+			j.ParKind, j.ParN, j.Strategy = "", 0, ""
 		}
 		if p.foreignHeavy {
 			j.ParKind, j.ParN = rapid.SampledFrom([]string{"count", "keys"}).Draw(t, "fhKind"), rapid.IntRange(2, 3).Draw(t, "fhN")
@@ -679,7 +696,7 @@ func genOpsOn(t *rapid.T, r *e2run, tr *E2Trace, p e2Profile, _ int) {
 					for _, jc := range jcs {
 						idle := true
 						for _, j := range jobs {
-							if ref := metav1.GetControllerOf(j); ref != nil && ref.UID == jc.UID && !j.Status.Phase.IsTerminal() {
+							if ref := metav1.GetControllerOf(j); ref != nil && ref.UID == jc.UID && !terminalPhase(j.Status.Phase) {
 								idle = false
 							}
 						}
@@ -691,7 +708,7 @@ func genOpsOn(t *rapid.T, r *e2run, tr *E2Trace, p e2Profile, _ int) {
 				}
 				if len(cands) > 0 && rapid.IntRange(0, 4).Draw(t, "owned") != 0 {
 					op.A = rapid.SampledFrom(cands).Draw(t, "jc").Name
-					if !p.confluent {
+					if !p.confluent && !p.enqueueHeavy {
 						op.B = rapid.SampledFrom([]string{"", "", "Allow", "Forbid", "Enqueue"}).Draw(t, "jobpolicy")
 					}
 					createdFor[op.A] = true
@@ -748,6 +765,8 @@ func genOpsOn(t *rapid.T, r *e2run, tr *E2Trace, p e2Profile, _ int) {
 			switch {
 			case pd.Spec.NodeName == "":
 				schedulable = append(schedulable, pd)
+			case pd.Status.Phase == corev1.PodPending && pd.Status.StartTime != nil:
+				flapped = append(flapped, pd) // was running, reports Pending without containers for now
 			case pd.Status.Phase == corev1.PodPending:
 				runnable = append(runnable, pd)
 			case pd.Status.Phase == corev1.PodRunning && len(pd.Status.ContainerStatuses) == 0:
@@ -775,7 +794,7 @@ func genOpsOn(t *rapid.T, r *e2run, tr *E2Trace, p e2Profile, _ int) {
 		kub("k-finish-terminating", 3, termRunning, func() string {
 			return rapid.SampledFrom([]string{"succeed", "fail", "fail"}).Draw(t, "outcome")
 		})
-		kub("k-flap", 1, running, func() string { return "flap" })
+		kub("k-flap", 1, running, func() string { return rapid.SampledFrom([]string{"flap", "flap-pending"}).Draw(t, "flapKind") })
 		var restartable []*corev1.Pod
 		for _, pd := range running {
 			if pd.Spec.RestartPolicy == corev1.RestartPolicyOnFailure {
@@ -785,6 +804,21 @@ func genOpsOn(t *rapid.T, r *e2run, tr *E2Trace, p e2Profile, _ int) {
 		kub("k-restart", 3, restartable, func() string { return rapid.SampledFrom([]string{"restart", "restart-oom"}).Draw(t, "restartKind") })
 		kub("k-unflap", 4, flapped, func() string { return "unflap" })
 		kub("k-terminate", 6, terminating, func() string { return "terminate" })
+		// Owner references are only ever stripped by the garbage collector, for the
+		// dependents of an owner that is being deleted with orphan propagation.
+		var orphanable []*corev1.Pod
+		for _, pd := range pods {
+			if ref := metav1.GetControllerOf(pd); ref != nil {
+				for _, j := range jobs {
+					if j.UID == ref.UID && j.DeletionTimestamp != nil {
+						orphanable = append(orphanable, pd)
+					}
+				}
+			}
+		}
+		if len(orphanable) > 0 && !p.confluent {
+			add("orphanPod", 3, func() E2Op { return E2Op{K: "orphanPod", A: keyOf(rapid.SampledFrom(orphanable).Draw(t, "orphanpod"))} })
+		}
 		if len(alivePods) > 0 {
 			add("deletePod", 1, func() E2Op { return E2Op{K: "deletePod", A: keyOf(rapid.SampledFrom(alivePods).Draw(t, "delpod"))} })
 		}
@@ -849,7 +883,7 @@ func genOpsOn(t *rapid.T, r *e2run, tr *E2Trace, p e2Profile, _ int) {
 		if p.foreignPods {
 			var targets []*execution.Job
 			for _, j := range liveJobs {
-				if !j.Status.Phase.IsTerminal() && j.Spec.KillTimestamp == nil {
+				if !terminalPhase(j.Status.Phase) && j.Spec.KillTimestamp == nil {
 					targets = append(targets, j)
 				}
 			}
